@@ -549,6 +549,28 @@ class FSInterp(ResultInterp):
         h.inode = inode_of(fs, path)
         return h
 
+    def _csv_rows(self, rd) -> list:
+        """The rows a csv.reader on this handle yields.  Cells without line-break characters come back as
+        written; as soon as one has a carriage return or line feed the exact text (the real csv module's
+        rendering) is translated as the handle's newline mode says and parsed by the real csv.reader."""
+        fs = self.root.fs
+        rows = [list(r) for r in fs.files.get(rd.h.path, [])]
+        if not any(isinstance(c, str) and ("\r" in c or "\n" in c) for r in rows for c in r):
+            return rows
+        txt = render_text(fs, rd.h.path)
+        if txt is None:
+            return rows
+        if rd.h.kwargs.get("newline", None) is None:
+            txt = txt.replace("\r\n", "\n").replace("\r", "\n")  # universal newlines
+        import csv as _csv
+        import io as _io
+
+        toks = fs.__dict__.get("_sym_tokens", {})
+        try:
+            return [[toks.get(c, c) for c in r] for r in _csv.reader(_io.StringIO(txt, newline=""), **{k: v for k, v in rd.opts.items() if isinstance(v, (str, int))})]
+        except _csv.Error:
+            return rows
+
     def iterate(self, it, node):
         if isinstance(it, MemRows):
             rest = it.rows[it.pos :]
@@ -556,7 +578,7 @@ class FSInterp(ResultInterp):
             return rest
         if isinstance(it, CsvR):
             self.fslog("read-rows", it.h.path)
-            rows = [list(r) for r in self.root.fs.files.get(it.h.path, [])]
+            rows = self._csv_rows(it)
             rest = rows[it.pos :]
             it.pos = len(rows)
             return rest
@@ -590,7 +612,7 @@ class FSInterp(ResultInterp):
             raise RaiseSignal("StopIteration", node)
         if name == "next" and 1 <= len(args) <= 2 and isinstance(args[0], CsvR):
             rd = args[0]
-            rows = self.root.fs.files.get(rd.h.path, [])
+            rows = self._csv_rows(rd)
             self.fslog("read-rows", rd.h.path)
             if rd.pos < len(rows):
                 rd.pos += 1
